@@ -11,6 +11,8 @@ import (
 	_ "verif/checks/c03"
 	_ "verif/checks/c04"
 	_ "verif/checks/c05"
+	_ "verif/checks/c06"
+	_ "verif/checks/c07"
 	_ "verif/checks/c11"
 	_ "verif/checks/c14"
 	_ "verif/checks/c15"
